@@ -326,6 +326,61 @@ def known_cases():
     yield G.case("sparse.concatenate", "join", [u8, u8], [{"l": [X0, G.X1]}], {"axis": 0}, "valid")
     yield G.case("x[idx]", "getitem", [u8], [X0, [{"s": [1, None, None]}]], {}, "valid", chunk="getitem-coo")
     yield G.case("sparse.tril", "tri", [u8], [X0, -1], {}, "valid")
+    yield from retired_witnesses()
+
+
+def retired_witnesses():
+    """the witness of every finding that was repaired in /repo (KNOWN_FINDINGS.txt `fixed:` lines): must-pass cases, whatever the seed"""
+    z = G.arr_variants
+    X0 = G.X0
+    coo = lambda shp: next(z(tuple(shp), ("coo",)))      # noqa: E731
+    gcxs = lambda shp: next(z(tuple(shp), ("gcxs",)))    # noqa: E731
+    dok = lambda shp: next(z(tuple(shp), ("dok",)))      # noqa: E731
+    A = lambda v, shape=None: dict({"a": v, "dtype": "int64"}, **({"shape": shape} if shape is not None else {}))   # noqa: E731
+    # 999f0e4 reshape: several -1 / -1 next to a 0 extent (COO, GCXS, DOK)
+    for x in (coo((3,)), gcxs((3,)), dok((3,))):
+        yield G.case("x.reshape", "reshape", [x], [X0, [-1, -1, 3]], {}, "reshape-bad")
+    for x in (coo((3,)), gcxs((3, 3)), coo((3, 3))):
+        yield G.case("x.reshape", "reshape", [x], [X0, [-1, 0]], {}, "reshape-bad")
+        yield G.case("sparse.reshape", "reshape", [x], [X0, [0, -1]], {}, "reshape-bad")
+    # 22a856d COO(coords, data, shape=()): length / rank tests skipped; idx_dtype with shape=() raised from max(())
+    yield G.case("COO(coords,data,shape)", "ctor", [], [A([], [0, 1]), A([3, 2])], {"shape": []}, "ctor", chunk="ctor")
+    yield G.case("COO(coords,data,shape)", "ctor", [], [A([], [0, 1]), A([3])], {"shape": [], "idx_dtype": {"dt": "uint8"}}, "ctor", chunk="ctor")
+    # 5753560 GCXS((data, indices, indptr), shape, compressed_axes): wrong lengths, index pointers not ending at len(indices)
+    yield G.case("GCXS(triple,shape,ca)", "ctor", [], [[A([3]), A([0]), A([0, 1])]], {"shape": [2, 2], "compressed_axes": [0]}, "ctor", chunk="ctor")
+    yield G.case("GCXS(triple,shape,ca)", "ctor", [], [[A([3, 1]), A([0]), A([0, 1, 1])]], {"shape": [2, 2], "compressed_axes": [0]}, "ctor", chunk="ctor")
+    yield G.case("GCXS(triple,shape,ca)", "ctor", [], [[A([3]), A([0]), A([0, 2, 2])]], {"shape": [2, 2], "compressed_axes": [0]}, "ctor", chunk="ctor")
+    yield G.case("GCXS(triple,shape,ca)", "ctor", [], [[A([3]), A([0]), A([1, 1, 1])]], {"shape": [2, 2], "compressed_axes": [0]}, "ctor", chunk="ctor")
+    # ... its residual (F-c18-gcxs-ctor-contents-unchecked): consistent lengths, contents outside the shape
+    yield G.case("GCXS(triple,shape,ca)", "ctor", [], [[A([-2]), A([3]), A([0, 1])]], {"shape": [1, 1], "compressed_axes": [0]}, "ctor", chunk="ctor")
+    yield G.case("GCXS(triple,shape,ca)", "ctor", [], [[A([7, 8]), A([0, 1]), A([0, 3, 2])]], {"shape": [2, 2], "compressed_axes": [0]}, "ctor", chunk="ctor")
+    # f8a1188 nbytes of a 0-d / 1-d GCXS
+    for shp in ((), (3,), (0,)):
+        yield G.case("x.props", "convert", [gcxs(shp)], [X0], {}, "valid")
+    # 9d10515 COO-only functions called with a GCXS array
+    g22 = gcxs((2, 2))
+    yield G.case("sparse.tril", "tri", [g22], [X0], {}, "valid")
+    yield G.case("sparse.triu", "tri", [g22], [X0, 1], {}, "valid")
+    yield G.case("sparse.diagonal", "diagonal", [g22], [X0], {"offset": 0, "axis1": 0, "axis2": 1}, "valid")
+    yield G.case("sparse.nonzero", "search", [g22], [X0], {}, "valid")
+    yield G.case("sparse.argwhere", "search", [g22], [X0], {}, "valid")
+    yield G.case("sparse.broadcast_to", "broadcast_to", [g22], [X0, [2, 2, 2]], {}, "valid")
+    # b6c8f54 diagonal(axis1 == axis2), e21e508 flip / eaaac81 squeeze / 55412b6 moveaxis with a repeated axis
+    yield G.case("sparse.diagonal", "diagonal", [coo((2, 2))], [X0], {"offset": 0, "axis1": 1, "axis2": -1}, "axis-repeated")
+    yield G.case("sparse.flip", "flip", [coo((3,))], [X0], {"axis": [-1, -1]}, "axis-repeated")
+    yield G.case("x.squeeze", "squeeze", [coo((1,))], [X0], {"axis": [0, 0]}, "axis-repeated")
+    yield G.case("sparse.squeeze", "squeeze", [coo((1,))], [X0], {"axis": [0, -1]}, "axis-repeated")
+    yield G.case("sparse.moveaxis", "transpose", [coo((2, 1))], [X0, [0, -1], [0, 0]], {}, "axis-repeated")
+    yield G.case("sparse.moveaxis", "transpose", [coo((2, 1))], [X0, [0, 0], [0, -1]], {}, "axis-repeated")
+    # e2d0b75 sort of a 1-d array with an out-of-range axis
+    yield G.case("sparse.sort", "sort", [coo((2,))], [X0], {"axis": -5}, "axis-oor")
+    yield G.case("sparse.sort", "sort", [coo((2,))], [X0], {"axis": 1}, "axis-oor")
+    # 5b38ef4 tensordot with repeated axes and an empty contraction
+    yield G.case("sparse.tensordot", "tensordot", [coo((3, 0, 0)), gcxs((0, 3, 0))], [X0, G.X1], {"axes": [{"l": [0, 1, 2, 0]}, {"l": [1, 2, 0, 1]}]}, "shape-mismatch")
+    # e1153be slice step 0 after another index entry (COO, DOK read, DOK assignment)
+    yield G.case("x[idx]", "getitem", [coo((1, 2))], [X0, [{"s": [None, None, None]}, {"s": [None, None, 0]}]], {}, "index-step0", chunk="getitem-coo")
+    yield G.case("x[idx]", "getitem", [dok((2, 3))], [X0, [1, {"s": [None, None, 0]}]], {}, "index-step0", chunk="getitem-dok")
+    yield G.case("dok[idx]=v", "setitem", [dok((2, 3))], [X0, [1, {"s": [None, None, 0]}], 1], {}, "index-step0")
 
 
 def build_cases(ctx, rng):
@@ -384,7 +439,7 @@ def leg_c(ctx, rng, pool):
         msg = judge(c, r)
         if msg:
             info = dict(sc, formats=[G.fmt_tag(a) for a in c.get("arrays", [])], shapes=[a["shape"] for a in c.get("arrays", [])],
-                        outcome=oc, etype=r.get("etype"), np=r.get("np"), origin=r.get("origin"))
+                        outcome=oc, etype=r.get("etype"), np=r.get("np"), np_msg=r.get("np_msg"), origin=r.get("origin"))
             fid = findings.classify(PID, c["op"], info, msg)
             fails_by_id[fid or "UNCLASSIFIED"] += 1
             ctx.fail("C", c["op"], info, msg, finding=fid)
